@@ -13,7 +13,8 @@ AllConfigs == [tk : Tks, enc : EncSets, comp : CompSets, schemes : SchSets,
                flavour : {"chan", "server"}]
 (* quick: compression lists only where the guard they feed changes value *)
 QuickConfigs == {c \in AllConfigs :
-                   /\ (c.comp # {"none"} => (c.enc = {"none", "tls"} /\ c.schemes = {"guest", "plain"}))
+                   /\ (c.comp = {"none", "gzip"} => (c.enc = {"none", "tls"} /\ c.schemes = {"guest", "plain"}))
+                   /\ (c.comp = {"gzip"} => c.schemes = {"guest", "plain"})
                    /\ (c.schemes \in {{"transport"}, {}} => c.enc = {"none"})}
 TinyConfigs == {c \in AllConfigs : c.tk = "tcp_tls" /\ c.comp = {"none"} /\ c.schemes = {"guest", "plain"}
                                    /\ c.flavour = "chan"}
